@@ -118,6 +118,27 @@ pub fn draw_plan_opt(flavour: Flavour, base: &ExecLike, max_faults: u32, only_nu
             if !guards && k == Fault::GuardReject {
                 k = Fault::ResolverError;
             }
+            // mass failure: now and then the same field fails in every item of the lists above it
+            let wild = |q: &str| q.split('.').map(|s| if s.chars().all(|c| c.is_ascii_digit()) { "*" } else { s }).collect::<Vec<_>>().join(".");
+            // (nullable fields only: every such failure is absorbed where it happens, so the plan stays
+            // free of races between failures inside one non-null region)
+            let field_nullable = field_def(parent, field).map(|d| !d.ty.ends_with('!')).unwrap_or(false);
+            if field_nullable && p.split('.').any(|s| s.chars().all(|c| c.is_ascii_digit())) && sim::chance(1, 4) {
+                let pat = wild(&p);
+                let mut n_mass = 0;
+                for q in fmap.keys() {
+                    if wild(q) == pat {
+                        plan.faults.insert(q.clone(), k);
+                        n_mass += 1;
+                    }
+                }
+                if n_mass > 30 {
+                    sim::count("probe:mass-failure-over-30-positions");
+                }
+                if n_mass > 128 {
+                    sim::count("probe:mass-failure-over-128-positions");
+                }
+            }
             plan.faults.insert(p, k);
         }
     }
